@@ -254,6 +254,66 @@ def replay_diag(K, L, perm, r):
     return hist
 
 
+def model_arith_diag(K, perm, r):
+    """The tracked diagonal before each body as the MODEL's arithmetic computes it (sequential left-to-right sums
+    starting from 0.0, exactly Model.pc_step), driven by the implementation's pivot sequence `perm`.
+    K: nested lists.  Returns list of (perm_before_j, d_j) like replay_diag."""
+    n = len(K)
+    d = [K[i][i] for i in range(n)]
+    cur = list(range(n))
+    Lrows = []
+    hist = []
+    for j in range(r):
+        hist.append((cur[:], d[:]))
+        p = perm[j]
+        pos = cur.index(p)
+        cur[j], cur[pos] = cur[pos], cur[j]
+        row = [0.0] * n
+        if d[p] < 0 or d[p] != d[p]:
+            break
+        piv = math.sqrt(d[p])
+        row[p] = piv
+        if j + 1 < n:
+            for x in cur[j + 1:]:
+                if j > 0:
+                    acc = 0.0
+                    for l in range(j):
+                        acc = acc + Lrows[l][p] * Lrows[l][x]
+                    v = K[p][x] - acc
+                else:
+                    v = K[p][x]
+                v = v / piv if piv != 0 else float("nan")
+                row[x] = v
+            for x in cur[j + 1:]:
+                d[x] = d[x] - row[x] * row[x]
+        Lrows.append(row)
+    return hist
+
+
+def rounding_dependent_tie(K, L, perm, r):
+    """True when, at some body, the set of maximal remaining diagonal entries differs between the implementation's
+    arithmetic (bit-wise replay) and the model's arithmetic (sequential sums): a tie that is exact in one of them
+    only.  Structural ties (exact in both) are NOT reported: there the tie RULE decides and is compared."""
+    try:
+        hi = replay_diag(K, L, perm, r)
+        hm = model_arith_diag(K.tolist(), perm, r)
+    except (ValueError, ZeroDivisionError):
+        return False
+    for j in range(min(r, len(hm))):
+        cur, di = hi[j]
+        _, dm = hm[j]
+        cand = cur[j:]
+        vi = [di[x] for x in cand]
+        vm = [dm[x] for x in cand]
+        if any(v != v for v in vi + vm):
+            return False
+        si = {x for x, v in zip(cand, vi) if v == max(vi)}
+        sm = {x for x, v in zip(cand, vm) if v == max(vm)}
+        if si != sm:
+            return True
+    return False
+
+
 def check_pc_member(K, L, perm, r, rtol=1e-8):
     """The C10 pivoted-Cholesky predicates for one member.  Returns (list of failures, info)."""
     n = K.shape[-1]
